@@ -50,6 +50,23 @@ fn alpha(cfg: &Cfg) -> Vec<Op> {
     v
 }
 
+/// quick tier: the 3x3 screen one level less deep than 2x2
+fn shallow_part(tier: Tier) -> Part<'static, LockStep> {
+    Part {
+        name: "save-restore-lockstep-3x3",
+        sys: &SYS,
+        cfgs: match tier {
+            Tier::Quick => cfgs(&[(3, 3)], &[None]),
+            Tier::Thorough => vec![],
+        },
+        alphabet: &alpha,
+        depth: 4,
+        seconds: 40.0,
+        validated: true,
+        nontrivial: Some("lockstep_transitions"),
+    }
+}
+
 macro_rules! parts {
     ($tier:expr, $sys:expr) => {{
         let tier: Tier = $tier;
@@ -57,12 +74,12 @@ macro_rules! parts {
             name: "save-restore-lockstep",
             sys: $sys,
             cfgs: match tier {
-                Tier::Quick => cfgs(&[(3, 3), (2, 2)], &[None]),
+                Tier::Quick => cfgs(&[(2, 2)], &[None]),
                 Tier::Thorough => cfgs(&[(3, 3), (2, 2), (4, 2), (1, 2)], &[None]),
             },
             alphabet: &alpha,
             depth: tier.pick(5, 6),
-            seconds: tier.pick(40.0, 2400.0),
+            seconds: tier.pick(60.0, 2400.0),
             validated: true,
             nontrivial: Some("lockstep_transitions"),
         }
@@ -75,6 +92,9 @@ pub fn run(ctx: &Ctx) -> Report {
     let mut rep = Report::new();
     let p = parts!(ctx.tier, &SYS);
     run_part(ctx, &mut rep, &p);
+    if ctx.tier == Tier::Quick {
+        run_part(ctx, &mut rep, &shallow_part(ctx.tier));
+    }
     rep.rule = "lock-step BFS of (real Vt, reference terminal keeping one optional saved context per screen) over the four save and four restore spellings (7- and 8-bit), cursor placement incl. the wrap-pending column, pens, DECOM/DECAWM toggles, margins, 47/1047/1049 switches, DECSTR, resizes; after every transition the cursor, pen, origin and auto-wrap mode and BOTH saved contexts (hook) are compared; after a resize only 'inside the screen' is required of a restored position".into();
     rep.assumptions = vec!["R6: DECSTR and RIS discard the saved context of the showing screen / both screens".into()];
     rep
@@ -82,6 +102,9 @@ pub fn run(ctx: &Ctx) -> Report {
 
 pub fn replay(ctx: &Ctx, v: &Value) -> bool {
     let tier = if v["tier"] == "thorough" { Tier::Thorough } else { Tier::Quick };
+    if v["part"] == "save-restore-lockstep-3x3" {
+        return replay_part(ctx, &shallow_part(Tier::Quick), v);
+    }
     let p = parts!(tier, &SYS);
     replay_part(ctx, &p, v)
 }
